@@ -409,7 +409,7 @@ class TaggedUnionConverter(UnionConverter):
         if self.external is False:
             try:
                 # don't give 'tag' to variants
-                val = val.copy()
+                val = dict(val)
                 tag = val.pop(self.tag)
             except KeyError:
                 raise ParseInterrupt()
@@ -439,7 +439,7 @@ class TaggedUnionConverter(UnionConverter):
         if self.external is False:
             try:
                 # don't give 'tag' to variants
-                val = val.copy()
+                val = dict(val)
                 tag = val.pop(self.tag)
             except KeyError:
                 return WrongTypeError(f"mapping with key '{self.tag}' => {self.tag_expected()}", val)
